@@ -115,6 +115,7 @@ pub fn family_main(o: &Opts, prop: &str, seed_tag: u64, default_strata: &str, de
     let mut r = Rng::new(o.seed ^ seed_tag);
     let mut cat = gen_catalog(&mut r, &copts);
     let mut n = 0usize; let mut attempts = 0usize;
+    let clustered = o.get_usize("clustered", 1) == 1;
     let big = o.get("big").unwrap_or("1") != "0"; let big_huge = o.get("big").unwrap_or("1") == "1"; let mut big_now = false;   // big=small: only the ~1025-row class
     while n < o.cases && attempts < o.cases * 4 + 16 {
         if attempts % per_cat == 0 {
@@ -128,11 +129,17 @@ pub fn family_main(o: &Opts, prop: &str, seed_tag: u64, default_strata: &str, de
         }
         attempts += 1;
         let mut qr = r.fork();
-        let g = Gen::new(&mut qr, &cat, &gopts).generate(n);
-        let g = match post(&mut r, &cat, g) { Some(g) => g, None => continue };
+        // targeted shape (spec mode, tried for 1 case in 4 and formed when the catalog has a suitable column — about 1 case in 10, `--opt clustered=0` switches it off): scalar / DISTINCT-accompanied MIN/MAX over the
+        // column whose NULLs layout mem8c clusters into whole batches
+        let targeted = if !meta && clustered && qr.chance(1, 4) { super::gen::clustered_agg_case(&mut qr, &cat) } else { None };
+        let (g, cluster) = match targeted {
+            Some((g, t, c, nf, k)) => (g, Some((t, c, nf, k))),
+            None => { let g = Gen::new(&mut qr, &cat, &gopts).generate(n); match post(&mut r, &cat, g) { Some(g) => (g, None), None => continue } }
+        };
         // rotate the single configuration of a spec-mode case over the list
-        let one = [cfgs[n % cfgs.len()].clone()];
+        let one = [if cluster.is_some() { ExecCfg::mem_clustered() } else { cfgs[n % cfgs.len()].clone() }];
         let mut case = make_case(&prop, &cat, &g.q, &g.tags, g.engine_defined, if meta { &cfgs } else { &one }, meta);
+        if let Some((t, c, nf, k)) = cluster { case["cat"][t]["cluster"] = json!([c, nf, k]); }
         if !meta { if let Some(t) = case["tags"].as_array_mut() { t.push(json!(format!("layout:{}", one[0].name))); } }
         if big_now { if let Some(t) = case["tags"].as_array_mut() { t.push(json!("data:big")); } }
         if neutral { case["neutral"] = json!(["nonull", "noopt"]); }
